@@ -2,7 +2,7 @@
 
 wc program = {'steps': [ {'reg': [[key, idx, kind, how], ...], 'ret': <value or None>} , ...]}
   kind: 'fut' (plain asyncio future owned by the harness) | 'child' (process launched with self.launch)
-  how : 'ret' (returned inside ToContext) | 'call' (self.to_context(key=...))
+  how : 'ret' (returned inside ToContext) | 'call' (self.to_context(key=...)) | 'wait' / 'wait-fut' (in the awaitables of a Wait the step returns)
 Outline is the plain sequence of the steps (outline structure is C09's business).
 
 Extra actions understood by WcRun.apply:
@@ -105,12 +105,13 @@ class WcBase(plumpy.WorkChain):
         dones = {}
         for prev in self.WCPROGRAM['steps'][:i]:
             for key, idx, kind, _how in prev['reg']:
-                ctxvals[key] = _jsonable(self.ctx.get(key, MISSING))
+                ctxvals[key] = _jsonable(vars(self.ctx).get(key, MISSING))  # (not ctx.get: a key may be called 'get')
                 dones[str(idx)] = env.awaitable_done(idx, kind)
         self._t('enter', i, self.paused, self.status, ctxvals, dones, plumpy.Process.current() is self)
         self.set_status('S%d' % i)
         self._rec.fire('step', self, i)
         toctx = {}
+        direct = {}
         for idx in st.get('pre', ()):
             # a child launched now but handed to the context only by a later step
             child = self.launch(EqChildProc if self.WCPROGRAM.get('equal_children') else ChildProc, inputs={'idx': idx})
@@ -127,11 +128,19 @@ class WcBase(plumpy.WorkChain):
                 aw.future().add_done_callback(lambda _f, idx=idx: env.done_order.append(['c', idx]))
             if how == 'call':
                 self.to_context(**{key: aw})
+            elif how in ('wait', 'wait-fut'):
+                # handed over in the awaitables of a wait command the step builds itself (what to_context() builds, without going
+                # through it): a child as the process ('wait') or as its future ('wait-fut'), one key or a list of keys each
+                if how == 'wait-fut' and isinstance(aw, plumpy.Process):
+                    aw = aw.future()
+                direct.setdefault(aw, []).append(key)
             else:
                 toctx[key] = aw
         self._t('leave', i, 'wc')
         if st.get('ret') is not None:
             return st['ret']
+        if direct:
+            return plumpy.Wait(self._do_step, 'waiting (awaitables given directly)', {aw: (keys[0] if len(keys) == 1 else keys) for aw, keys in direct.items()})
         if toctx or st.get('empty_tc'):
             # ('empty_tc': the step returns a context assignment in any case, empty when everything was handed over with to_context())
             return plumpy.ToContext(**toctx)
@@ -149,7 +158,7 @@ def _mk(i):
 def _mk_once(i):
     def once(self):
         # true the first time only (the position is kept in the context, i.e. in persisted state)
-        seen = self.ctx.get('_once%d' % i, False)
+        seen = vars(self.ctx).get('_once%d' % i, False)
         self.ctx['_once%d' % i] = True
         return not seen
 
